@@ -184,7 +184,7 @@ pub fn check(c: &Case, ctx: &mut Ctx) -> Result<(), Failure> {
 }
 pub fn run(tier: Tier, seed: u64) -> i32 {
     let t0 = Instant::now();
-    let sp = Spec { id: "C20", rule: RULE, tape_len: 48, cases: tier.pick(400_000, 8_000_000), gen: gen_case, check, max_shrink_iters: 4000, shards: 16 };
+    let sp = Spec { id: "C20", rule: RULE, tape_len: 48, cases: tier.pick(4_000_000, 80_000_000), gen: gen_case, check, max_shrink_iters: 4000, shards: 16 };
     let mut stats = engine::run_spec(&sp, tier, seed);
     engine::run_regressions::<Case>("C20", check, &mut stats);
     engine::finish("C20", tier, seed, RULE, stats, t0, serde_json::json!({}), &["IEEE-754 arithmetic of the host as reference for single operations (the property is about which operations are composed, in which order)"])
